@@ -45,6 +45,9 @@ type C03Case struct {
 	Fault string `json:"fault,omitempty"`
 	// Pos selects the frame (corrupt frame faults) or the byte offset (truncate, ioerr).
 	Pos int `json:"pos,omitempty"`
+	// ts-mutated: byte MutPos (mod length) of the frame's timestamp text is replaced by MutCh.
+	MutPos int  `json:"mut_pos,omitempty"`
+	MutCh  byte `json:"mut_ch,omitempty"`
 }
 
 func c03FormatTS(ts int64, f int) string {
@@ -113,6 +116,10 @@ func c03Encode(c C03Case) (stream []byte, frameStarts []int) {
 		switch {
 		case corrupt && c.Fault == "badts":
 			stream = append(stream, fakedocker.EncodeRecord(r.Typ, "2024-13-45Tnot-a-time", msg)...)
+		case corrupt && c.Fault == "ts-mutated":
+			b := []byte(ts)
+			b[c.MutPos%len(b)] = c.MutCh
+			stream = append(stream, fakedocker.EncodeRecord(r.Typ, string(b), msg)...)
 		case corrupt && c.Fault == "nosep":
 			stream = append(stream, fakedocker.EncodeFrame(r.Typ, []byte(strings.ReplaceAll(ts+string(msg), " ", "_")))...)
 		case corrupt && c.Fault == "syserr":
@@ -332,19 +339,43 @@ func c03Gen(t *rapid.T) C03Case {
 	if rapid.IntRange(0, 9).Draw(t, "long") == 0 {
 		n = rapid.IntRange(12, 40).Draw(t, "nrecs-long")
 	}
+	// A real log is written in sequence: half of the streams advance by small gaps (records in
+	// the same second, the same millisecond, the same nanosecond) in one timestamp spelling.
+	sequential := rapid.Bool().Draw(t, "sequential")
+	seqFmt := rapid.SampledFrom([]int{1, 1, 1, 0, 2}).Draw(t, "seqfmt") // the daemon writes the fixed-width form
+	var prev int64
 	for i := 0; i < n; i++ {
 		msg, rep := c03GenMsg(t)
+		ts, tsfmt := c03GenTS(t), rapid.IntRange(0, 2).Draw(t, "tsfmt")
+		if sequential && i > 0 {
+			ts = prev + rapid.SampledFrom([]int64{0, 1, 1000, 1e6, 5e6, 1e8, 1e9, 3e9}).Draw(t, "gap")
+			if rapid.IntRange(0, 3).Draw(t, "seq-same-fmt") != 0 {
+				tsfmt = seqFmt
+			}
+		}
+		prev = ts
 		c.Recs = append(c.Recs, C03Rec{
 			Typ:   rapid.SampledFrom([]byte{1, 1, 2, 2, 0}).Draw(t, "typ"),
-			TS:    c03GenTS(t),
-			TSFmt: rapid.IntRange(0, 2).Draw(t, "tsfmt"),
+			TS:    ts,
+			TSFmt: tsfmt,
 			Msg:   msg,
 			Rep:   rep,
 		})
 	}
 	c.Frag = genFrag(t)
-	c.Fault = rapid.SampledFrom([]string{"", "", "", "truncate-all", "truncate", "badts", "nosep", "syserr", "ioerr", "empty-frame", "ts-only"}).Draw(t, "fault")
-	if n == 0 && (c.Fault == "badts" || c.Fault == "nosep" || c.Fault == "syserr" || c.Fault == "empty-frame" || c.Fault == "ts-only") {
+	c.Fault = rapid.SampledFrom([]string{"", "", "", "truncate-all", "truncate", "badts", "nosep", "syserr", "ioerr", "empty-frame", "ts-only", "ts-mutated", "ts-mutated"}).Draw(t, "fault")
+	if c.Fault == "ts-mutated" {
+		// One character of a well-formed timestamp replaced: a sign or a letter in place of a
+		// digit, a wrong separator, another digit (then the timestamp is just a different one).
+		c.MutPos = rapid.IntRange(0, 40).Draw(t, "mutpos")
+		c.MutCh = rapid.SampledFrom([]byte("+-+-.:TZz0159a_/")).Draw(t, "mutch")
+		if rapid.IntRange(0, 2).Draw(t, "mut-sign") == 0 {
+			// A sign in the first position of a numeric field (integer parsers accept one).
+			c.MutPos = rapid.SampledFrom([]int{0, 5, 8, 11, 14, 17, 20, 20}).Draw(t, "mut-field")
+			c.MutCh = rapid.SampledFrom([]byte("+-")).Draw(t, "mut-signch")
+		}
+	}
+	if n == 0 && (c.Fault == "ts-mutated" || c.Fault == "badts" || c.Fault == "nosep" || c.Fault == "syserr" || c.Fault == "empty-frame" || c.Fault == "ts-only") {
 		c.Fault = ""
 	}
 	if c.Fault != "" && c.Fault != "truncate-all" {
